@@ -40,12 +40,25 @@ Theorem pinned_never_evicted : forall n b c p, (0 < n)%nat -> reachable n b c ->
 Proof. exact pinned_resident. Qed.
 Print Assumptions pinned_never_evicted.
 
-(** A newly allocated page id is never one that is still in use. *)
+(** A newly allocated page id is never one that is still in use: nobody holds a
+    pin on it, it holds no written content, and it is not resident — except as
+    the unpinned, deallocation-flagged page that this very call caches out (its
+    id goes to the reusable list and may be handed out at once; the theorem
+    [new_id_may_be_the_evicted_one] shows this case is real). *)
 Theorem new_id_fresh : forall n b c vic b' c' p, (0 < n)%nat -> reachable n b c ->
   cstep n (b, c) (BNew vic) = Some (b', c', BONew p) ->
-  pins_of c p = 0 /\ aget (c_spec c) p = None /\ aget (ptable b) p = None.
-Proof. exact new_fresh. Qed.
+  pins_of c p = 0 /\ aget (c_spec c) p = None /\
+  (aget (ptable b) p = None \/
+   (freel b = [] /\ aget (ptable b) p = Some vic /\
+    exists fr, fr_at b vic = Some fr /\ f_pin fr = 0%Z /\ f_dealloc fr = true)).
+Proof. exact new_fresh_partial. Qed.
 Print Assumptions new_id_fresh.
+
+Theorem new_id_may_be_the_evicted_one :
+  exists n b c vic b' c' p, (0 < n)%nat /\ reachable n b c /\
+    cstep n (b, c) (BNew vic) = Some (b', c', BONew p) /\ aget (ptable b) p <> None.
+Proof. exact new_fresh_refuted. Qed.
+Print Assumptions new_id_may_be_the_evicted_one.
 
 (** One frame per page; the replacer only ever contains unpinned resident frames,
     so a legal victim is never a page in use. *)
